@@ -115,9 +115,9 @@ func init() {
 	})
 	register(&Property{
 		ID:        "C02",
-		Technique: "static analysis: path enumeration with boolean implication over the slice validators; term extraction and sibling comparison of the two slice-length calculators; structural co-slicing rule",
+		Technique: "static analysis: path enumeration with boolean implication over the slice validators and the contiguity marker; term extraction and sibling comparison of the two slice-length calculators; structural co-slicing rule; guard census",
 		Explain: "Decides: (S3) CheckSlice accepts only when start <= end, start >= 0, not(step == 0 and end-start > 1), start < size, and SliceDetails validates every non-nil slice, clamps end and expands nil to (0,size,1); (S4) AP.S and Shape.S refuse more slices than axes and take (start,end,step) of every axis from SliceDetails; (S5) the length term under step > 0 is ceil((end-start)/step) with no extra condition, identical in both calculators; (S9) Slice/SliceInto take window and access pattern from one AP.S call, slice data and mask with the same window, record the parent and copy dtype/engine/flag. " +
-			"Not decided: offset (ndStart/ndEnd) arithmetic, stride scaling, which dimensions are dropped, contiguity flagging.",
+			"(S12) the sliced access pattern is marked NonContiguous at least when a non-outermost axis of a non-vector is sliced or a step > 1 is taken, with the outermost axis chosen by data order (names bound structurally). Not decided: offset (ndStart/ndEnd) arithmetic, stride scaling, which dimensions are dropped.",
 		Run: func(rc *rules.RC) {
 			rules.S3(rc)
 			rules.S5(rc)
@@ -127,8 +127,8 @@ func init() {
 	})
 	register(&Property{
 		ID:        "C13",
-		Technique: "static analysis: term extraction and sibling comparison of shape calculators; path enumeration with boolean implication over the reshape gate",
-		Explain: "Decides: (S5) the shape-only slice calculator and the access-pattern slice calculator compute the same length term, which is ceil((end-start)/step); (S4) both validate through SliceDetails and refuse too many slices; (S7) every path of Reshape that reaches reshape() has established equal total size, is not a non-contiguous view and has materialised a pending lazy transpose, and reshape() only sets the shape and checks sanity; (O8) for the metadata-invariant clause: no two tensors own the same shape/strides slices (an alias lets one tensor's reshape or recycling zero the other's shape). " +
+		Technique: "static analysis: term extraction and sibling comparison of shape calculators; path enumeration with boolean implication over the reshape gate, the contiguity marker and the repeat destination check; lock typestate of access patterns over canonical paths; unique-owner analysis over SSA",
+		Explain: "Decides: (S5) the shape-only slice calculator and the access-pattern slice calculator compute the same length term, which is ceil((end-start)/step); (S4) both validate through SliceDetails and refuse too many slices; (S7) every path of Reshape that reaches reshape() has established equal total size, is not a non-contiguous view and has materialised a pending lazy transpose, and reshape() only sets the shape and checks sanity; (O8) for the metadata-invariant clause: no two tensors own the same shape/strides slices (an alias lets one tensor's reshape or recycling zero the other's shape); (S12) AP.S marks sliced views NonContiguous (the flag Reshape's refusal keys on); (S14) every call of the lock-respecting AP.SetShape happens on a pattern unlocked on every path (otherwise the shape is silently not installed and size != product of shape); (L1) RepeatReuse accepts a destination only when its shape is the computed result shape. " +
 			"Not decided: that shape and strides address distinct in-bounds positions (a runtime invariant over values), that reshape preserves the flat sequence, repeat/concat calculators' arithmetic.",
 		Run: func(rc *rules.RC) {
 			rules.S5(rc)
@@ -198,8 +198,8 @@ func init() {
 	})
 	register(&Property{
 		ID:        "C15",
-		Technique: "static analysis: mask-predicate table conformance of every typed arm, arm uniformity and type coherence, iterator mask polarity/duality, co-slicing of the mask, offset identity of mask access",
-		Explain: "Decides: (K8) in every typed arm of Masked{Equal,NotEqual,Greater,GreaterEqual,Less,LessEqual,Inside,Outside} the soft branch stores mask[i] = P(a) and the hard branch mask[i] = mask[i] || P(a) with P from the predicate table; (K1arms/K3) the arms agree and use their own label type; (I1,I2) masked iteration treats a set bit as invalid, in NextValidity/NextValid/NextInvalid of both masked iterator types; (S9) Slice/SliceInto slice the mask with the data window; (S2) MaskAt/SetMaskAt address the mask at the same offset as the data element (maskAt is at); (T-mask) both transpose builds move the mask before the data. " +
+		Technique: "static analysis: mask-predicate table conformance of every typed arm, arm uniformity and type coherence, iterator mask polarity/duality, co-slicing of the mask, offset identity of mask access, sibling-pair duality of the mask inspections, guard goals on whole-mask folds",
+		Explain: "Decides: (K8) in every typed arm of Masked{Equal,NotEqual,Greater,GreaterEqual,Less,LessEqual,Inside,Outside} the soft branch stores mask[i] = P(a) and the hard branch mask[i] = mask[i] || P(a) with P from the predicate table; (K1arms/K3) the arms agree and use their own label type; (I1,I2) masked iteration treats a set bit as invalid, in NextValidity/NextValid/NextInvalid of both masked iterator types; (S9) Slice/SliceInto slice the mask with the data window; (S2) MaskAt/SetMaskAt address the mask at the same offset as the data element (maskAt is at); (T-mask) both transpose builds move the mask before the data; (SP) FlatMasked*/FlatNotMasked* and doMaskAll/doMaskAny are mirror images up to polarity; (L1) the whole-mask folds of MaskedAll/Any/Count run only when the mask covers exactly the tensor's elements; (E1) Filled/FilledInplace and the mask helpers never work on a result under its own err != nil. " +
 			"Not decided: counts, run/edge finders, fill values, that valid positions get the unmasked value of elementwise operations.",
 		Quick: []string{"default", "inplacetranspose"},
 		Run: func(rc *rules.RC) {
@@ -266,7 +266,7 @@ func init() {
 	register(&Property{
 		ID:        "C10",
 		Technique: "static analysis: layout-accumulator implication check, layout-guard goals on the block-copy paths, width-family uniformity of the view-stack kernels, loop-cursor discipline, ownership of the repeats/axes arguments",
-		Explain: "Decides: (LA) the flag that selects StackDense's raw block-copy path is true only if no operand requires an iterator (initial value and every loop path, by implication); (L1) the block-copy calls are guarded by it, and whether denseRepeat consults the operand's layout (it does not: known finding 32); (K1w) doViewStack1/2/4/8 are one algorithm; (E2) in every loop of the stacking/repetition code a cursor advanced at the end of the body is advanced on every continue path; (O2/O3) repeats and shapes passed by the caller are neither kept nor modified. " +
+		Explain: "Decides: (LA) the flag that selects StackDense's raw block-copy path is true only if no operand requires an iterator (initial value and every loop path, by implication); (L1) the block-copy calls are guarded by it, and whether denseRepeat consults the operand's layout (it does not: known finding 32); (K1w) doViewStack1/2/4/8 are one algorithm; (E2) in every loop of the stacking/repetition code a cursor advanced at the end of the body is advanced on every continue path; (O2/O3) repeats and shapes passed by the caller are neither kept nor modified; (L1) Hstack stacks along axis 0 only for rank-1 receivers and RepeatReuse accepts a destination only of the computed shape; (LC/LF) a new raw block copy or flat element loop must be layout-guarded; (P2) concat/stack/repeat do not write their operands (denseConcat does: known finding 16). " +
 			"Not decided: block-copy offsets/strides of denseRepeat and denseSimpleStack, the slice-and-assign placement of denseConcat, data-order agreement of stacked operands (finding 19).",
 		Run: func(rc *rules.RC) {
 			rules.LA(rc)
@@ -295,8 +295,8 @@ func init() {
 	})
 	register(&Property{
 		ID:        "C14",
-		Technique: "static analysis: static evaluation of the .npy dtype tables (writer o reader = id), wire-sequence agreement of the gob encoder/decoder, layout-guard goals on the writers, type-token coherence of the typed reader arms",
-		Explain: "Decides: (F1) for every dtype the .npy writer accepts, the reader maps its descriptor back to the same dtype (both tables and the reader's special cases evaluated statically for the int size of the configuration); (F2) GobEncode puts exactly the tensor's own Shape(), Strides(), order, triangle, mask, Data() on the wire and GobDecode reads the same sequence and installs every value; (F5) the rank-1 .npy header form is used only for rank-1 tensors; (L1/L4) whether WriteNpy, GobEncode and ToMat64 consult the layout before emitting raw storage (they do not: known findings 18, 28); (K3/K1arms) the typed arms of the readers (convFromStrs, ReadNpy) use their own label type and bit size. " +
+		Technique: "static analysis: static evaluation of the .npy dtype tables (writer o reader = id), wire-sequence agreement of the gob encoder/decoder, layout-guard goals on the writers, type-token coherence of the typed reader arms, flat-traversal census, access-pattern lock typestate, operand mod-summaries over SSA",
+		Explain: "Decides: (F1) for every dtype the .npy writer accepts, the reader maps its descriptor back to the same dtype (both tables and the reader's special cases evaluated statically for the int size of the configuration); (F2) GobEncode puts exactly the tensor's own Shape(), Strides(), order, triangle, mask, Data() on the wire and GobDecode reads the same sequence and installs every value; (F5) the rank-1 .npy header form is used only for rank-1 tensors; (L1/L4) whether WriteNpy, GobEncode and ToMat64 consult the layout before emitting raw storage (they do not: known findings 18, 28); (K3/K1arms) the typed arms of the readers (convFromStrs, ReadNpy) use their own label type and bit size; (LF) every counting loop that emits elements by flat index is a reviewed site or is guarded by the layout predicate and consults the data order (a new flat fast path in a writer is reported); (S14) the readers install the decoded shape through an unlocked access pattern on every path (decoding into a tensor already in use must not silently keep the old shape); (P2) the writers do not modify the tensor. " +
 			"Not decided: value-level round trip (number formatting/parsing, header padding arithmetic, CSV record assembly), protobuf/flatbuffers field mapping.",
 		Run: func(rc *rules.RC) {
 			rules.F1(rc)
@@ -318,14 +318,15 @@ func init() {
 	register(&Property{
 		ID:        "C16",
 		Technique: "static analysis: truth-table check of the data-order predicates and of the iterator decisions over all participants' orders; order-agreement goals on raw two-tensor accesses and exporters; BLAS-gateway order goals; stride-routine selection by order",
-		Explain: "Decides: (L0) IsColMajor/IsRowMajor/HasSameOrder are what they claim and prepDataVV/VS/SV/Unary iterate whenever two participants disagree on data order; (L3) raw two-tensor accesses (Copy, Float32/64Engine.Add) and row-major-only kernels (ReduceFirst/ReduceLast) are conditioned on the data order; (L4) exporters into row-major formats consult it; (LB) BLAS gateways derive leading dimensions from each operand's order; (T4) stride routines are selected by order in calcStrides and Transpose. Several of these fail on the pinned tree and are listed as known findings (17-19, 21, 40, 41). " +
-			"Not decided: that the BLAS flag mapping is right for column-major; contiguity flagging of column-major slices; StackDense order agreement.",
+		Explain: "Decides: (L0) IsColMajor/IsRowMajor/HasSameOrder are what they claim and prepDataVV/VS/SV/Unary iterate whenever two participants disagree on data order; (L3) raw two-tensor accesses (Copy, Float32/64Engine.Add) and row-major-only kernels (ReduceFirst/ReduceLast) are conditioned on the data order; (L4) exporters into row-major formats consult it; (LB) BLAS gateways derive leading dimensions from each operand's order; (T4) stride routines are selected by order in calcStrides and Transpose; (S10) the two stride calculators are one recurrence run in opposite directions; (S11) whoever flips the column-major bit recomputes the strides; (S12) AP.S picks the outermost axis by data order and marks column-major slices non-contiguous; (K3/K1arms) the typed arms of the BLAS gateways agree with each other (an operand swap in one precision is reported); (LC/LF) new raw copies / flat element loops must be layout-guarded and (LF) order-aware. Several of these fail on the pinned tree and are listed as known findings (17-19, 21, 40, 41). " +
+			"Not decided: that the BLAS flag mapping is right for column-major; block-size arithmetic of stack/concat under column-major (seed R2C16b is not caught); StackDense order agreement.",
 		Run: func(rc *rules.RC) {
 			rules.L0(rc, nil)
 			rules.LGuards(rc, "C16")
 			rules.LC(rc, 18)
 			rules.LF(rc, 20)
 			rules.T4(rc)
+			rules.S12(rc)
 			rules.S11(rc)
 			rules.S10(rc)
 			rules.K3(rc, fileFilter("defaultengine_linalg.go"), 3, 12)
@@ -334,7 +335,7 @@ func init() {
 	register(&Property{
 		ID:        "C20",
 		Technique: "static analysis: every structural rule of the default configuration re-run under each build configuration; declaration parity of tag-selected files; layout-guard goals and width coherence of the specialised float engines; sibling comparison of per-build transpose code",
-		Explain: "Decides: (B1) each pair of tag-selected files (transpose copy vs in-place; asm vs pure-Go divmod) declares the same functions with the same signatures; (L1/L2/L3) the Float32/Float64 engines take their vecf fast paths only when no operand requires an iterator, never after the iterator kernel ran, and whether they consult data order (they do not: known finding 21); (K3) they use only accessors and kernels of their own width; (K1) F32/F64 engine methods are the same template; (T1,T2,T6,K1w,TMask) the in-place transpose build satisfies the same bookkeeping, sibling and mask rules as the copying build; thorough tier: all of this under default, noasm, inplacetranspose, both, and GOARCH=386. " +
+		Explain: "Decides: (B1) each pair of tag-selected files (transpose copy vs in-place; asm vs pure-Go divmod) declares the same functions with the same signatures; (L1/L2/L3) the Float32/Float64 engines take their vecf fast paths only when no operand requires an iterator, never after the iterator kernel ran, and whether they consult data order (they do not: known finding 21); (K3) they use only accessors and kernels of their own width; (K1/SP) F32/F64 engine methods are the same template and the hand-written Float32Engine/Float64Engine methods are mirror images up to the width; (B3) the pure-Go divmod selected by noasm / non-amd64 returns (a / b, a % b) on every path; (T1,T2,T6,K1w,TMask) the in-place transpose build satisfies the same bookkeeping, sibling and mask rules as the copying build; thorough tier: all of this under default, noasm, inplacetranspose, both, and GOARCH=386. " +
 			"Not decided: the assembly divmod, numerical equality of results across engines, the cycle-following arithmetic of the in-place transpose.",
 		Quick: []string{"default", "inplacetranspose", "noasm"},
 		Run: func(rc *rules.RC) {
@@ -371,7 +372,7 @@ func init() {
 	register(&Property{
 		ID:        "C19",
 		Technique: "static analysis: interprocedural ownership analysis over go/ssa (origin tracing with fixpoint summaries returns-param / retains / writes / recycles), mod-set of the recycle function, unique-owner rule for pool-managed access patterns",
-		Explain: "A history-quantified property becomes per-site ownership invariants decided over every function: (O1,O2,O3) no exported function recycles, retains or mutates a caller's []int/Shape/[]Slice/[]bool argument, directly or through any chain of callees (summaries by fixpoint; documented sharing is a named exception table); (O6) ReturnTensor stores a zero value into every leaf field of Dense before pooling it; (O7) ReturnTensor inside the library receives only tensors created in that function, or a parameter under the not-the-reuse-tensor guard; (O8) an access pattern (whose shape/strides slices AP.zero and SetShape return to the ints pool) read out of one object is stored elsewhere only as a move or after Clone, no exported function returns such an alias, no local alias is zeroed into the pool; (T2) the lazy-transpose triple is cleared together. If no live object can reach a slice in the free list and no caller slice is kept, written or recycled, no operation history can corrupt through that channel. " +
+		Explain: "A history-quantified property becomes per-site ownership invariants decided over every function: (O1,O2,O3) no exported function recycles, retains or mutates a caller's []int/Shape/[]Slice/[]bool argument, directly or through any chain of callees (summaries by fixpoint; documented sharing is a named exception table); (O6) ReturnTensor stores a zero value into every leaf field of Dense before pooling it; (O7) ReturnTensor inside the library receives only tensors created in that function, or a parameter under the not-the-reuse-tensor guard; (O8) an access pattern (whose shape/strides slices AP.zero and SetShape return to the ints pool) read out of one object is stored elsewhere only as a move or after Clone, no exported function returns such an alias, no local alias is zeroed into the pool; (T2) the lazy-transpose triple is cleared together; (O10) every freeScalar call lies under the newAlloc flag of scalarToHeader/prepDataVS/prepDataSV, so a scalar operand that is a tensor (aliased, not copied) is never zeroed and pooled. If no live object can reach a slice in the free list and no caller slice is kept, written or recycled, no operation history can corrupt through that channel. " +
 			"Not decided: corruption through backing arrays the API documents as shared; use-after-return inside one function (O9) beyond the rules above.",
 		Assume: []string{"interface calls resolve to the module's implementing types (CHA restricted to the module)", "flow-insensitive origin tracing through locals and captured variables (over-approximates aliases)"},
 		Run: func(rc *rules.RC) {
